@@ -450,7 +450,7 @@ fn main() {
 
     if which == "reg" || which == "all" {
         // every op x sync/async x size x error position (none / first call / second call) x pend pattern
-        let reps = if thorough { 40 } else { 6 };
+        let reps = if thorough { 120 } else { 6 };
         for op in ["write", "wzero", "read", "modify"] {
             for asy in [false, true] {
                 for &size in REG_SIZES.iter() {
@@ -505,7 +505,7 @@ fn main() {
     }
 
     if which == "cmd" || which == "all" {
-        let reps = if thorough { 40 } else { 8 };
+        let reps = if thorough { 120 } else { 8 };
         for &si in CMD_SIZES.iter() {
             for &so in CMD_SIZES.iter() {
                 for asy in [false, true] {
@@ -536,7 +536,7 @@ fn main() {
     }
 
     if which == "buf" || which == "all" {
-        let reps = if thorough { 6000 } else { 500 };
+        let reps = if thorough { 30000 } else { 500 };
         for op in ["write", "flush", "read", "write_all", "read_exact"] {
             for via_trait in [false, true] {
                 for asy in [false, true] {
